@@ -32,21 +32,49 @@ def validate_type_contract():
 
 
 # ------------------------------------------------------------------ IntegerProperty.clean
-def integer_clean_contract():
+def integer_clean_contract(kind='int'):
+    """kind: 'int' | 'bool' (bool is a subclass of int in Python: JSON true/false given for an integer property must come out as the plain integers 1/0)"""
     mn, mx = E.named('opt:int', 'self.min'), E.named('opt:int', 'self.max')
-    value = Val('int', z3.Int('value'))          # an int, or anything int() maps to an int (A)
+    if kind == 'int': value = Val('int', z3.Int('value'))          # an int, or anything int() maps to an int (A)
+    else:
+        bv = z3.Bool('value'); given = Val('bool', bv); value = Val('int', z3.If(bv, z3.IntVal(1), z3.IntVal(0)))
 
     def inrange(n): return z3.And(z3.Or(mn.t[0], n >= mn.t[1].t), z3.Or(mx.t[0], n <= mx.t[1].t))
 
     def ens(a, r):
         if r.sort != 'tuple' or len(r.x) != 2 or r.x[0].sort != 'int' or r.x[1].sort != 'bool': raise SortMismatch('result shape')
         return z3.And(inrange(r.x[0].t), r.x[0].t == value.t, z3.Not(r.x[1].t))
-    return Contract(f'{PR}::IntegerProperty.clean', props=['C02', 'C03'],
-                    params={'self': Rec(min=mn, max=mx), 'value': value, 'allow_custom': 'bool', 'interoperability': 'bool'},
-                    ensures=[('returns the integer unchanged, inside [min, max], never custom', ens)],
+    def call(py):
+        import stix2.properties as P
+        return P.IntegerProperty(min=py['min'], max=py['max']).clean(py['value'], py.get('allow_custom', False))
+
+    def lower(model):
+        return {'value': model['value'], 'min': None if model.get('self.min.isnone') else model.get('self.min'), 'max': None if model.get('self.max.isnone') else model.get('self.max'),
+                'allow_custom': bool(model.get('allow_custom'))}
+
+    def search():
+        big = 2 ** 53
+        for lo, hi in ((None, None), (0, None), (0, 100), (None, 65535), (1, 1), (-big - 2, big + 2), (None, 10 ** 30)):
+            for v in (0, 1, -1, 2, 100, 101, 65535, 65536, big, big + 1, -big - 1, 10 ** 20 + 1, 10 ** 400, True, False, '12', '-3'):
+                yield {'value': v, 'min': lo, 'max': hi}
+
+    def judge(py, outcome, ob):
+        kind, val = outcome; n = int(py['value'])
+        ok = (py['min'] is None or n >= py['min']) and (py['max'] is None or n <= py['max'])
+        what = f"IntegerProperty(min={py['min']}, max={py['max']}).clean({py['value']!r})"
+        if ok:
+            if kind == 'raise': return [f'{what}: an integer inside the range is refused: {type(val).__name__}: {val}']
+            if not (isinstance(val, tuple) and len(val) == 2 and type(val[0]) is int and val[0] == n and val[1] is False): return [f'{what} -> {val!r}, expected ({n}, False) with a plain int']
+            return []
+        if kind == 'return': return [f'{what} -> {val!r}: a value outside the range is accepted']
+        return [] if isinstance(val, ValueError) else [f'{what} raised {type(val).__name__} instead of ValueError']
+    rp = Replay(call=call, lower=lower, judge=judge); rp.search = search
+    return Contract(f'{PR}::IntegerProperty.clean', props=['C02', 'C03'], replay=rp,
+                    params={'self': Rec(min=mn, max=mx), 'value': value if kind == 'int' else given, 'allow_custom': 'bool', 'interoperability': 'bool'},
+                    ensures=[('returns the integer unchanged (a plain int), inside [min, max], never custom', ens)],
                     raises={'ValueError': lambda a: z3.Not(inrange(value.t))},
                     assumptions=['A: int(v) returns an int or raises; for an int argument it is the identity'],
-                    note='iff: an integer is accepted exactly when it lies in the declared range (boundaries included)')
+                    note='iff: an integer is accepted exactly when it lies in the declared range (boundaries included); variant: value is ' + ('an int' if kind == 'int' else 'a bool'))
 
 
 # ------------------------------------------------------------------ timestamp-order co-constraints
